@@ -525,3 +525,30 @@ fn play_macro_nested(macro_id: u16, state: &mut DynamicMacroReplayState, recorde
         assert(items@.subrange(n - i - 1, n) =~= seq![item] + items@.subrange(n - i, n));
         assert(state.macro_items@ =~= items@.subrange(n - i - 1, n) + seq![DynamicMacroItem::EndMacro(macro_id)] + old(state).macro_items@);
     }
+
+// ---------------------------------------------------------------------------------------
+// play_macro, fresh replay (a FRAGMENT: the `None => { .. }` arm).  The closure handed to Option::map
+// builds the replay state; it is given a hand-written `ensures` (R35) and is VERIFIED against it.
+// ---------------------------------------------------------------------------------------
+//@ raw
+/// R36: `macro_items.clone().into()` (Vec -> VecDeque) -> this helper (ASSUMED: same items, same order)
+#[verifier::external_body]
+fn verif_to_deque(v: &Vec<DynamicMacroItem>) -> (r: VecDeque<DynamicMacroItem>)
+    ensures r@ == v@,
+{ unimplemented!() }
+
+//@ fragment src/kanata/dynamic_macro.rs fn play_macro block-after `None => {` as play_macro_fresh
+//@@ header
+fn play_macro_fresh(macro_id: u16, replay_state: &mut Option<DynamicMacroReplayState>, recorded_macros: &HashMap<u16, Vec<DynamicMacroItem>>)
+//@@ resub R35 1 /\.map\(\|macro_items\| \{/ => `.map(|macro_items: &Vec<DynamicMacroItem>| -> (st: DynamicMacroReplayState) ensures st.active_macros@ == Set::<u16>::empty().insert(macro_id), st.delay_remaining == 0, st.macro_items@ == macro_items@ {`
+//@@ resub R36 1 /macro_items\.clone\(\)\.into\(\)/ => `verif_to_deque(macro_items)`
+//@@ spec
+    ensures
+        // an unknown macro: nothing is replayed
+        !recorded_macros@.contains_key(macro_id) ==> *final(replay_state) is None,
+        // a recorded macro: it is replayed from its first item, it alone counts as active (so that it
+        // cannot play itself), and the first item goes out on the next tick
+        recorded_macros@.contains_key(macro_id) ==> *final(replay_state) is Some
+            && (*final(replay_state)).unwrap().macro_items@ == recorded_macros@[macro_id]@
+            && (*final(replay_state)).unwrap().active_macros@ == Set::<u16>::empty().insert(macro_id)
+            && (*final(replay_state)).unwrap().delay_remaining == 0,
